@@ -143,7 +143,7 @@ class World:
 # =====================================================================================================
 # execution of one operation of the model's op language through the public API
 # =====================================================================================================
-SORT_KEYS = {'id': 'id', 'prio': 'prio', 'name': 'name', 'bad': 5}
+SORT_KEYS = {'id': 'id', 'prio': 'prio', 'name': 'name', 'bad': 5, 'est': 'estimate'}
 
 
 def materialise(W, vs, form):
@@ -570,7 +570,7 @@ ID_POOL = [0, 1, 2, 3, 4, 5, 7, 9, -1, 12]
 KINDS = [('SetParent', 12), ('SetChildren', 9), ('SetLinks', 8), ('ChAppend', 9), ('ChRemove', 3), ('ChInsert', 8),
          ('ChMove', 8), ('ChSort', 4), ('ChReorder', 4), ('ChRemoveAll', 2), ('LnAppend', 5), ('LnRemove', 3),
          ('LnRemoveAll', 2), ('OpFloordiv', 9), ('OpShift', 7), ('LstShift', 5), ('LstSetParent', 2), ('WbsRemove', 2),
-         ('WbsRemoveAll', 2), ('SetEst', 1), ('SetPrio', 2), ('DeepLink', 5)]
+         ('WbsRemoveAll', 2), ('SetEst', 1), ('SetPrio', 2), ('DeepLink', 5), ('SortNone', 3), ('Promote', 3)]
 P_ILLEGAL = 0.43
 P_STALE = 0.21      # share of list calls that ASK for a pooled facade; ~15 % find one
 
@@ -609,6 +609,7 @@ class Gen:
         self.made_wbs = 0
         self.used_ids = []
         self.deep_left = 0
+        self.queue = []          # calls prepared by an aimed episode, issued at the next steps
 
     # ---- choices ----
     def want_illegal(self):
@@ -709,6 +710,12 @@ class Gen:
         if len(users) < 2 or (need and rng.random() < min(1.0, 3.0 * need / left)):
             if need:
                 return self.gen_create(V)
+        while self.queue:
+            item = self.queue.pop(0)
+            if callable(item):           # an episode continues with a look at the state as it is now
+                item = item(V)
+            if item is not None:
+                return item
         if self.deep_left > 0 and rng.random() < 0.75:       # an aimed episode in progress (g_DeepLink)
             self.deep_left -= 1
             r = self.g_DeepLink(V)
@@ -915,7 +922,7 @@ class Gen:
             if not big:
                 return None
             o, k = rng.choice(big), None
-        key = rng.choice(['id', 'id', 'name', 'name', 'prio', 'prio', 'bad'])
+        key = rng.choice(['id', 'id', 'name', 'name', 'prio', 'prio', 'bad', 'est', 'est'])
         return ['ChSort', o, key, rng.random() < 0.4], {'facade': k, 'v': rng.choice([None, 'explicit'])}
 
     def g_ChReorder(self, V):
@@ -1171,6 +1178,67 @@ class Gen:
             c, m = rng.choice(pairs)
             return ['SetParent', c, m], how
         return None
+
+    def g_SortNone(self, V):
+        """aims at `sort raises in the middle`: a list of 3+ children whose first two estimates are out of order and
+        a later child has estimate None; then sort by estimate (TypeError; the list must keep its order)"""
+        rng = self.rng
+        big = [x for x in self.owners(V) if len(V.kids(x)) >= 4]
+        if not big:
+            # first give some owner four children, then come back
+            users = V.users()
+            for t in rng.sample(self.owners(V), len(self.owners(V))):
+                vs = list(V.kids(t))
+                for c in rng.sample(users, len(users)):
+                    if len(vs) >= 4:
+                        break
+                    if c not in vs and V.ok_children(t, vs + [c]):
+                        vs.append(c)
+                if len(vs) >= 4:
+                    if not getattr(self, 'sortnone_built', False):
+                        self.sortnone_built = True
+                        self.queue = [self.g_SortNone]
+                    return ['SetChildren', t, vs], {'form': 'list', 'aim': 'sort-none-build'}
+            return None
+        o = rng.choice(big)
+        kids = V.kids(o)
+        n = len(kids)
+        how = {'aim': 'sort-none'}
+        rev = rng.random() < 0.4
+        # every child gets a distinct estimate in random order, one child None: far enough from the end where the
+        # sort starts (reverse=True walks the reversed list) that something has been moved before None is met
+        j = rng.randint(0, max(0, n - 3)) if rev else rng.randint(min(2, n - 1), n - 1)
+        vals = rng.sample([0, 4, 8, 12, 16, 24, 32, 40], n)
+        if n >= 3 and not rev and vals[0] < vals[1] and (n < 4 or vals[1] < vals[2]):
+            vals[0], vals[1] = vals[1], vals[0]           # an out-of-order pair in front
+        ops = [(['SetEst', kids[i], None if i == j else vals[i]], how) for i in range(n)]
+        ops.append((['ChSort', o, 'est', rev], dict(how, facade=None, v=rng.choice([None, 'explicit']))))
+        if rng.random() < 0.5:      # and once more after the None is gone: accepted, really sorted
+            ops += [(['SetEst', kids[j], rng.choice([2, 14, 36])], how),
+                    (['ChSort', o, 'est', rev], dict(how, facade=None, v=None))]
+        self.queue = ops[1:]
+        return ops[0]
+
+    def g_Promote(self, V):
+        """aims at `one children / roots assignment drops a child and keeps (promotes) one of its descendants`:
+        the promoted subtree stays in the tree while the dropped rest is released"""
+        rng = self.rng
+        cands = []
+        for t in self.owners(V):
+            for c in V.kids(t):
+                for g in V.sub(c):
+                    if g != c:
+                        cands.append((t, c, g))
+        if not cands:
+            return None
+        t, c, g = rng.choice(cands)
+        vs = [x for x in V.kids(t) if x != c and rng.random() < 0.7] + [g]
+        if rng.random() < 0.5:
+            rng.shuffle(vs)
+        if not V.ok_children(t, vs):
+            return None
+        form = pick_form(rng, vs)
+        return ['SetChildren', t, vs], {'form': form, 'aim': 'promote-descendant'}
 
     def g_WbsRemove(self, V):
         rng = self.rng
